@@ -228,6 +228,8 @@ def search(ctx, seeds, full=False):
 
     def add(case, why, f1=False):
         kind = ' '.join(w for w in why.split(' ') if not any(ch.isdigit() for ch in w))[:70]
+        if f1:
+            kind = 'read-size-dependent VMDK decision ' + ('(others match too)' if "', '" in why else '(vmdk or raw)')
         kinds[kind] = kinds.get(kind, 0) + 1
         if kinds[kind] > 2:
             return
@@ -321,7 +323,7 @@ def classify(ctx, failure, listed_findings):
     if KF not in {f['id'] for f in listed_findings} or ctx.driver is None:
         return None
     case = failure.case
-    if 'sizes_b' not in case or 'read-size-dependent' not in str(failure.detail.get('kind', '')):
+    if 'sizes_b' not in case or 'read-size-dependent' not in str(failure.detail.get('what', '')):
         return None
     data = G.decode_content(case['content'])
     al = case.get('allowed')
